@@ -31,7 +31,7 @@ theorem Serde.ok_is_wellformed (nodes : List (K × N)) (edges : List (K × K × 
   Serde.ok_is_wellformed' nodes edges ns s h
 
 example : rebuild [((0 : Nat), (1 : Int)), (1, 2), (0, 9)] [(0, 1, (5 : Nat)), (1, 1, 6)] =
-    some ([(0, 1), (1, 2)], connect (connect {} 0 1 5) 1 1 6) := by decide
-example : rebuild [((0 : Nat), (1 : Int))] [(0, 7, (5 : Nat))] = none := by decide
+    some ([(0, 1), (1, 2)], connect (connect {} 0 1 5) 1 1 6) := by rfl
+example : rebuild [((0 : Nat), (1 : Int))] [(0, 7, (5 : Nat))] = none := by rfl
 
 end G
